@@ -4,6 +4,7 @@
 package main
 
 import (
+	"encoding/json"
 	"fmt"
 	"os"
 	"path/filepath"
@@ -13,6 +14,7 @@ import (
 	"verifharness/lib"
 
 	"github.com/thought-machine/please/src/fs"
+	"github.com/thought-machine/please/src/parse/asp"
 )
 
 // ------------------------------------------------------------------------------------------ patterns
@@ -1007,6 +1009,340 @@ func runQuery(c *lib.Ctx, repo string, tree *node, ents []ent, q query, toModel 
 	}
 }
 
+// ------------------------------------------------------------------------------------------ histories on one Globber
+// A Globber is persisted over the glob() calls of one BUILD file; its walkedDirs cache is state.  A history of calls
+// on ONE Globber over one repository tree must return, call by call, what a fresh Globber returns (oracle), and what
+// the model's state machine returns, with the same final cache (tie).
+
+type call struct {
+	Pkg    string `json:"pkg"`
+	Inc    []pat  `json:"inc"`
+	Exc    []pat  `json:"exc"`
+	Hidden bool   `json:"hidden"`
+	Syms   bool   `json:"include_symlinks"`
+}
+
+func safeGlob(g *fs.Globber, cl call, extraExc []string) (res result) {
+	defer func() {
+		if r := recover(); r != nil {
+			res = result{Panic: fmt.Sprint(r)}
+		}
+	}()
+	out := g.Glob(cl.Pkg, renderAll(cl.Inc), append(renderAll(cl.Exc), extraExc...), cl.Hidden, cl.Syms)
+	if out == nil {
+		out = []string{}
+	}
+	return result{Out: out}
+}
+
+func sameResult(a, b result) bool {
+	if (a.Panic != "") != (b.Panic != "") {
+		return false
+	}
+	return a.Panic != "" || fmt.Sprintf("%q", a.Out) == fmt.Sprintf("%q", b.Out)
+}
+
+func sameWalked(a, b fs.VerifC21Walked) bool {
+	return a.Root == b.Root && fmt.Sprintf("%q", a.FileNames) == fmt.Sprintf("%q", b.FileNames) &&
+		fmt.Sprintf("%q", a.Symlinks) == fmt.Sprintf("%q", b.Symlinks) && fmt.Sprintf("%q", a.SubPackages) == fmt.Sprintf("%q", b.SubPackages)
+}
+
+func coqResult(r result) string {
+	if r.Panic != "" {
+		return "None"
+	}
+	return lib.Some(lib.StrList(r.Out))
+}
+
+func describeCall(cl call) string {
+	return fmt.Sprintf("glob(%q, exclude=%q, hidden=%v, include_symlinks=%v) in package %q", renderAll(cl.Inc), renderAll(cl.Exc), cl.Hidden, cl.Syms, cl.Pkg)
+}
+
+func jsCalls(calls []call, outs, fresh []result) []map[string]any {
+	js := []map[string]any{}
+	for i, cl := range calls {
+		m := map[string]any{"pkg": cl.Pkg, "inc": cl.Inc, "exc": cl.Exc, "include": renderAll(cl.Inc), "exclude": renderAll(cl.Exc),
+			"hidden": cl.Hidden, "include_symlinks": cl.Syms}
+		if outs != nil {
+			m["returned"], m["panic"] = outs[i].Out, outs[i].Panic
+			m["fresh_globber_returned"], m["fresh_globber_panic"] = fresh[i].Out, fresh[i].Panic
+		}
+		js = append(js, m)
+	}
+	return js
+}
+
+// asp source of one glob() call; ok = false when a pattern cannot be written as a plain asp string literal
+func aspList(xs []string) (string, bool) {
+	items := []string{}
+	for _, x := range xs {
+		if strings.ContainsAny(x, "\"\\\n") {
+			return "", false
+		}
+		items = append(items, `"`+x+`"`)
+	}
+	return "[" + strings.Join(items, ", ") + "]", true
+}
+
+func pyBool(b bool) string {
+	if b {
+		return "True"
+	}
+	return "False"
+}
+
+// runSequence: `calls` on one Globber over `tree` (materialised as the repository root).  With e2e, all calls must be
+// in one package: the same history is also run through the real asp interpreter (one BUILD file with one glob() per
+// call, parsed and interpreted in process; the builtin keeps one Globber per BUILD file scope).
+func runSequence(c *lib.Ctx, tree *node, calls []call, e2e bool, toModel bool) {
+	withTree(c, "", tree, func(repo string, _ []ent) {
+		cwd, _ := os.Getwd()
+		if err := os.Chdir(repo); err != nil {
+			panic(err)
+		}
+		defer os.Chdir(cwd)
+		g := fs.NewGlobber(fs.HostFS, buildFileNames)
+		outs, fresh := make([]result, len(calls)), make([]result, len(calls))
+		for i, cl := range calls {
+			outs[i] = safeGlob(g, cl, nil)
+			fresh[i] = safeGlob(fs.NewGlobber(fs.HostFS, buildFileNames), cl, nil)
+		}
+		cache := fs.VerifC21Cache(g)
+		js := map[string]any{"sequence": true, "tree": tree.json(), "calls": jsCalls(calls, outs, fresh), "cache": cache, "e2e": e2e}
+		key := "seq" + fmt.Sprint(tree.json(), e2e)
+		roots := map[string]int{}
+		flip, anyOut, panicked := false, false, false
+		seenPlain := map[string]bool{}
+		for i, cl := range calls {
+			key += fmt.Sprint("|", cl.Pkg, renderAll(cl.Inc), renderAll(cl.Exc), cl.Hidden, cl.Syms)
+			roots[cl.Pkg]++
+			if cl.Hidden && seenPlain[cl.Pkg] {
+				flip = true
+			}
+			if !cl.Hidden {
+				seenPlain[cl.Pkg] = true
+			}
+			anyOut = anyOut || len(outs[i].Out) > 0
+			panicked = panicked || outs[i].Panic != "" || fresh[i].Panic != ""
+		}
+		repeated := false
+		for _, n := range roots {
+			repeated = repeated || n >= 2
+		}
+		nontrivial := repeated && anyOut
+		c.Hist("seq_calls", fmt.Sprint(len(calls)))
+		c.Hist("seq_roots", fmt.Sprint(len(roots)))
+		c.Hist("seq_hidden_false_then_true_same_root", lib.Bool(flip))
+		c.Hist("seq_cached_roots", fmt.Sprint(len(cache)))
+
+		// ---- oracle 1: cache transparency, call by call (exact list, or both panic)
+		for i, cl := range calls {
+			c.Oracle()
+			if !sameResult(outs[i], fresh[i]) {
+				c.Fail("globber-cache-changes-result", fmt.Sprintf("call %d of %d on one Globber: %s returned %q (panic %q), a fresh Globber returns %q (panic %q)",
+					i+1, len(calls), describeCall(cl), outs[i].Out, outs[i].Panic, fresh[i].Out, fresh[i].Panic), js)
+			}
+		}
+		// ---- oracle 2: every cached entry is what a walk of that root by a fresh Globber collects, whatever the flags
+		//      of the call that filled it; and only roots of the history are cached
+		for _, w := range cache {
+			c.Oracle()
+			fg := fs.NewGlobber(fs.HostFS, buildFileNames)
+			pkg := w.Root
+			if pkg == "." {
+				pkg = ""
+			}
+			safeGlob(fg, call{Pkg: pkg, Inc: []pat{{segOf([]atom{star()})}}, Hidden: true, Syms: true}, nil)
+			fc := fs.VerifC21Cache(fg)
+			if len(fc) != 1 || !sameWalked(fc[0], w) {
+				c.Fail("globber-cache-entry-differs-from-fresh-walk", fmt.Sprintf("after the history the Globber's cache for root %q holds files %q symlinks %q subpackages %q; a fresh walk of that root collects %+v",
+					w.Root, w.FileNames, w.Symlinks, w.SubPackages, fc), js)
+			}
+			if _, ok := roots[pkg]; !ok {
+				c.Fail("globber-cache-key-not-a-root-of-the-history", fmt.Sprintf("the cache holds root %q, which no call named", w.Root), js)
+			}
+		}
+
+		// ---- end to end: the same history as one BUILD file through the asp interpreter.  The in-process parser state
+		//      (core.NewDefaultBuildState, no .plzconfig read) has NO build file names, so the builtin's Globber is
+		//      NewGlobber(HostFS, nil) and nothing is appended to the excludes: the expected results are those of a fresh
+		//      Globber configured the same way.
+		if e2e {
+			pkg := calls[0].Pkg
+			var e2eBfn []string
+			var src strings.Builder
+			ok := true
+			want := make([]result, len(calls))
+			pg := fs.NewGlobber(fs.HostFS, e2eBfn)
+			for i, cl := range calls {
+				inc, ok1 := aspList(renderAll(cl.Inc))
+				exc, ok2 := aspList(renderAll(cl.Exc))
+				want[i] = safeGlob(fs.NewGlobber(fs.HostFS, e2eBfn), cl, nil)
+				persisted := safeGlob(pg, cl, nil)
+				ok = ok && ok1 && ok2 && cl.Pkg == pkg && want[i].Panic == "" && persisted.Panic == "" && len(cl.Inc) > 0
+				// allow_empty=False only where the result on a Globber with this very history is non-empty (an empty
+				// result is a fatal error of the whole process, not a recoverable one)
+				allowEmpty := !(len(want[i].Out) > 0 && len(persisted.Out) > 0 && i%2 == 1)
+				fmt.Fprintf(&src, "g%d = glob(include = %s, exclude = %s, hidden = %s, include_symlinks = %s, allow_empty = %s)\n",
+					i, inc, exc, pyBool(cl.Hidden), pyBool(cl.Syms), pyBool(allowEmpty))
+			}
+			if ok {
+				js["build_file"] = src.String()
+				c.Oracle()
+				res, err := asp.VerifC16Eval([]asp.VerifC16File{{Name: pkg, Src: src.String()}}, false)
+				c.Hist("seq_as_build_file_through_asp", "run")
+				if err != nil || len(res) != 1 || res[0].Err != "" {
+					msg := fmt.Sprint(err)
+					if err == nil && len(res) == 1 {
+						msg = res[0].Err
+					}
+					c.Fail("glob-builtin-failed", "a BUILD file of glob() calls failed in the asp interpreter: "+msg, js)
+				} else {
+					var raw map[string]json.RawMessage
+					if err := json.Unmarshal(res[0].After, &raw); err != nil {
+						panic(err)
+					}
+					for i, cl := range calls {
+						var l []any
+						got := []string{}
+						if json.Unmarshal(raw[fmt.Sprintf("g%d", i)], &l) == nil && len(l) >= 2 {
+							for _, x := range l[2:] {
+								got = append(got, fmt.Sprint(x))
+							}
+						}
+						if fmt.Sprintf("%q", got) != fmt.Sprintf("%q", want[i].Out) {
+							c.Fail("globber-cache-changes-result", fmt.Sprintf("BUILD file of package %q, glob() call %d of %d: %s returned %q through the asp builtin (one Globber per BUILD file), a fresh Globber returns %q",
+								pkg, i+1, len(calls), describeCall(cl), got, want[i].Out), js)
+						}
+					}
+				}
+			}
+		}
+
+		// ---- model side: the state machine of Model/C21.v (results and final cache)
+		ok := toModel
+		for _, cl := range calls {
+			// the root is joined into every pattern: the model covers roots without glob / regexp metacharacters
+			ok = ok && !strings.ContainsAny(cl.Pkg, "(){}|^$\\[]*?")
+			for _, p := range append(append([]pat{}, cl.Inc...), cl.Exc...) {
+				ok = ok && modellable(p)
+			}
+		}
+		if ok {
+			cs, rs, fin := []string{}, []string{}, []string{}
+			for i, cl := range calls {
+				cs = append(cs, lib.App("Call", lib.Str(cl.Pkg), lib.StrList(renderAll(cl.Inc)), lib.StrList(renderAll(cl.Exc)), lib.Bool(cl.Hidden), lib.Bool(cl.Syms)))
+				rs = append(rs, coqResult(outs[i]))
+			}
+			for _, w := range cache {
+				fin = append(fin, lib.Pair(lib.Str(w.Root), lib.App("Walked", lib.StrList(w.FileNames), lib.StrList(w.Symlinks), lib.StrList(w.SubPackages))))
+			}
+			c.Case(lib.App("CSeq", lib.StrList(buildFileNames), tree.coq(), lib.List(cs), lib.List(rs), lib.List(fin)), js, key, nontrivial)
+		} else {
+			c.Eval(js, key, nontrivial)
+		}
+		_ = panicked
+	})
+}
+
+// every directory of the tree (as a package path), the repository root first
+func (n *node) dirs(prefix string, out *[]string) {
+	for _, k := range n.Kids {
+		if k.N.Kind == kDir {
+			p := k.Name
+			if prefix != "" {
+				p = prefix + "/" + k.Name
+			}
+			*out = append(*out, p)
+			k.N.dirs(p, out)
+		}
+	}
+}
+
+func (n *node) at(pkg string) *node {
+	cur := n
+	if pkg == "" {
+		return cur
+	}
+	for _, seg := range strings.Split(pkg, "/") {
+		var next *node
+		for _, k := range cur.Kids {
+			if k.Name == seg {
+				next = k.N
+			}
+		}
+		cur = next
+	}
+	return cur
+}
+
+var broadPatterns = []pat{{dstar}, {segOf([]atom{star()})}, {dstar, segOf([]atom{star()})}, {segOf([]atom{star()}), dstar},
+	{segOf([]atom{star()}), segOf([]atom{star()})}, {dstar, segOf([]atom{star()}, lit(".txt"))}, {segOf([]atom{{K: "?"}}, []atom{star()})}}
+
+// a history of 2-5 calls over 1-3 roots of the tree; hidden entries are planted so that the hidden flag matters
+func genSequence(r *lib.Rng, oneRoot bool) (*node, []call) {
+	tree := genDir(r, 0, true, true)
+	plant := func(n *node) {
+		name := lib.Pick(r, []string{".hid.txt", "#x#", ".a", ".x.txt"})
+		for _, k := range n.Kids {
+			if k.Name == name {
+				return
+			}
+		}
+		n.Kids = append(n.Kids, entry{name, &node{Kind: kFile}})
+	}
+	var ds []string
+	tree.dirs("", &ds)
+	if r.Chance(3, 4) {
+		plant(tree)
+	}
+	if len(ds) > 0 && r.Chance(3, 4) {
+		plant(tree.at(lib.Pick(r, ds)))
+	}
+	tree.sortKids()
+	roots := []string{""}
+	if len(ds) > 0 && r.Chance(1, 3) {
+		roots[0] = lib.Pick(r, ds)
+	}
+	for i, n := 0, r.Intn(4); i < n && len(ds) > 0 && !oneRoot; i++ {
+		roots = append(roots, lib.Pick(r, ds))
+	}
+	ncalls := r.Range(2, 5)
+	calls := []call{}
+	var prev *call
+	for i := 0; i < ncalls; i++ {
+		pkg := roots[0]
+		if r.Chance(1, 2) {
+			pkg = lib.Pick(r, roots)
+		}
+		var ents []ent
+		tree.at(pkg).all(nil, &ents)
+		cl := call{Pkg: pkg, Hidden: r.Bool(), Syms: r.Bool()}
+		switch {
+		case prev != nil && r.Chance(1, 3):
+			// the same query again on the same root, with the flags changed: only the cache is between the two
+			cl = call{Pkg: prev.Pkg, Inc: prev.Inc, Exc: prev.Exc, Hidden: !prev.Hidden, Syms: prev.Syms != r.Chance(1, 3)}
+		default:
+			for k, n := 0, r.Range(1, 2); k < n; k++ {
+				if r.Chance(1, 3) {
+					cl.Inc = append(cl.Inc, lib.Pick(r, broadPatterns))
+				} else {
+					cl.Inc = append(cl.Inc, genPattern(r, ents))
+				}
+			}
+			if r.Chance(1, 12) {
+				cl.Inc = nil // no include at all: nothing is walked, nothing cached
+			}
+			for k, n := 0, r.Intn(3); k < n; k++ {
+				cl.Exc = append(cl.Exc, genExclude(r, ents))
+			}
+		}
+		calls = append(calls, cl)
+		prev = &calls[len(calls)-1]
+	}
+	return tree, calls
+}
+
 func bucket(n int) string {
 	switch {
 	case n == 0:
@@ -1054,7 +1390,9 @@ func main() {
 		c.Rule("directory trees generated on disk (depth <= 4; plain, hidden, half-hidden and regex-metacharacter names; sub-packages = directories holding BUILD/BUILD.plz; plz-out; symlinks) " +
 			"as the root package or a nested package, x queries (1-3 include and 0-2 exclude patterns derived from paths of the tree by generalising segments to *, prefix*, *suffix, ?, [class], and runs of segments to **; hidden and include_symlinks flags) " +
 			"through the real fs.Globber.Glob on fs.HostFS; every entry of the tree is compared with an independent segment-wise reference matcher; " +
-			"queries whose patterns the model covers are also compared with the Coq model (exact returned list); plus fs.Match on pattern x path pairs and toRegexString on generated strings. " +
+			"queries whose patterns the model covers are also compared with the Coq model (exact returned list); plus fs.Match on pattern x path pairs and toRegexString on generated strings; " +
+			"plus histories of 2-5 Glob calls on ONE Globber over 1-3 roots of one tree (hidden entries planted; a third repeat the previous query with the hidden flag flipped), compared call by call with a fresh Globber (cache transparency), " +
+			"cache entry by cache entry with a fresh walk, with the model's state machine (results and final walkedDirs through the hook), and for one-package histories with the same calls written as a BUILD file and run through the asp interpreter. " +
 			"distinct = distinct (tree, query); non-trivial = tree with >= 3 entries and a non-empty result")
 
 		var rq struct {
@@ -1064,10 +1402,16 @@ func main() {
 			Exc     []pat          `json:"exc"`
 			Hidden  bool           `json:"hidden"`
 			Symlink bool           `json:"include_symlinks"`
+			Calls   []call         `json:"calls"`
+			E2E     bool           `json:"e2e"`
 		}
 		if c.ReadReplay(&rq) && rq.Tree != nil {
 			tree := nodeFromJSON(rq.Tree)
 			tree.fixSymKinds()
+			if len(rq.Calls) > 0 {
+				runSequence(c, tree, rq.Calls, rq.E2E, true)
+				return
+			}
 			withTree(c, rq.Pkg, tree, func(repo string, ents []ent) {
 				runQuery(c, repo, tree, ents, query{rq.Pkg, rq.Inc, rq.Exc, rq.Hidden, rq.Symlink}, true)
 			})
@@ -1195,6 +1539,28 @@ func main() {
 					}
 				}
 			})
+		}
+
+		// ---- 5. histories of Glob calls on ONE Globber (the walkedDirs cache is state): the history of Proof/C21_cache.v
+		//         (h_tree, h_calls - with a root that does not exist), then generated ones over 1-3 roots of one tree, and
+		//         one-package histories that are also run as a BUILD file through the asp interpreter
+		hTree := dir(file(".top.txt"), file("a.txt"), sub("d", file("#c.txt#"), file(".b.txt"), file("e.txt")), sub("sub", file("BUILD"), file("s.txt")))
+		starSeg := segOf([]atom{star()})
+		hCalls := []call{
+			{"", []pat{{dstar, anyTxt}, {anyTxt}}, nil, false, false},
+			{"", []pat{{dstar, anyTxt}, {anyTxt}}, nil, true, false},
+			{"d", []pat{{starSeg}}, []pat{{segOf(lit("e."), []atom{star()})}}, true, false},
+			{"", []pat{{dstar, anyTxt}}, []pat{{segOf(lit("e."), []atom{star()})}}, true, true},
+			{"nowhere", []pat{{starSeg}}, nil, false, false},
+		}
+		runSequence(c, hTree, hCalls, false, true)
+		runSequence(c, hTree, hCalls[:2], true, true)
+		runSequence(c, hTree, []call{hCalls[2], {"d", []pat{{starSeg}}, nil, false, false}, hCalls[2]}, true, true)
+		for i, n := 0, c.Scale(70, 1500); i < n; i++ {
+			r := c.Rng.Fork()
+			e2e := i%3 == 2
+			tree, calls := genSequence(r, e2e)
+			runSequence(c, tree, calls, e2e, true)
 		}
 
 		// ---- 4. toRegexString on rendered patterns and on adversarial strings
